@@ -458,7 +458,7 @@ V_C11(S, e, T, aux) ==
             p == PosOf(S, v, t)
             p2 == PosOf(T, v, t)
             f == OwedG(aux, S, v, t, p)
-        IN Tag(~Held(p2) \/ p2.lupf = Cpf(T, v), "C11.checkpoint")
+        IN Tag(~Held(p2) \/ p2.lupf = Cpf(S, v), "C11.checkpoint")     \* S: the ghost cumulative fraction (unchanged by this step)
            \cup (IF e.tx.m = "open_position" /\ Held(p) /\ Len(e.swaps) = 1 /\ e.swaps[1].type = "input"
                     /\ (p.dir = "add") = (e.tx.a.side = "buy")
                     /\ ~S.eng.cfg.native
@@ -479,7 +479,7 @@ V_C11(S, e, T, aux) ==
 \* the cumulative premium fraction of a vAMM changes only through a successful PayFunding on it
 V_C11b(S, e, T, aux) ==
   UNION { IF EngOp(e, "pay_funding") /\ e.res.ok /\ e.tx.a.vamm = v THEN {}
-          ELSE Tag(Cpf(T, v) = Cpf(S, v) /\ Len(T.eng.vmap[v].cpf) = Len(S.eng.vmap[v].cpf), "C11.fraction_changed_without_settlement")
+          ELSE Tag(Cpf(T, v) = Cpf(S, v), "C11.fraction_changed_without_settlement")
         : v \in Vs(T) }
 A_C11(S, e, T, aux) ==
   IF EngOp(e, "pay_funding") /\ e.res.ok THEN
@@ -814,9 +814,6 @@ ViolationsRaw(id, S, e, T, aux) ==
     [] id = "C16" -> V_C16(S, e, T, aux) [] id = "C17" -> V_C17(S, e, T, aux)
     [] id = "C18" -> V_C18(S, e, T, aux) [] id = "C20" -> V_C20(S, e, T, aux)
     [] OTHER -> {}
-Violations(id, S, e, T, aux) ==
-  IF id \in RawIds THEN ViolationsRaw(id, S, e, T, aux)
-  ELSE ViolationsRaw(id, NormW(GW(aux.gsnaps, S)), e, NormW(GW(GSnapsNext(aux.gsnaps, S, e, T), T)), aux)
 
 AntecedentsRaw(id, S, e, T, aux) ==
   CASE id = "C01" -> A_C01(S, e, T, aux) [] id = "C02" -> A_C02(S, e, T, aux)
@@ -829,10 +826,31 @@ AntecedentsRaw(id, S, e, T, aux) ==
     [] id = "C16" -> A_C16(S, e, T, aux) [] id = "C17" -> A_C17(S, e, T, aux)
     [] id = "C18" -> A_C18(S, e, T, aux) [] id = "C20" -> A_C20(S, e, T, aux)
     [] OTHER -> {}
-Antecedents(id, S, e, T, aux) ==
-  IF id \in RawIds THEN AntecedentsRaw(id, S, e, T, aux)
-  ELSE AntecedentsRaw(id, NormW(GW(aux.gsnaps, S)), e, NormW(GW(GSnapsNext(aux.gsnaps, S, e, T), T)), aux)
 
+
+\* The cumulative premium fraction and the positions' funding checkpoints are ghosts as well: the
+\* cumulative fraction is advanced by the specification's own premium (vAMM TWAP over the ghost snapshots
+\* minus oracle TWAP, x period / day) at every successful PayFunding; a checkpoint moves to it whenever the
+\* owner trades on / withdraws from / closes the position.  The valuing oracles read these, not the stored
+\* cumulative list / stored checkpoint, so a settlement that is not recorded, or a checkpoint that is not
+\* advanced, cannot hide the funding owed from the oracle.
+GCpfNextC(aux, S, e, T, calc) ==
+  [v \in Vs(T) |->
+     IF ~(v \in DOMAIN aux.gcpf) THEN Cpf(T, v)
+     ELSE IF EngOp(e, "pay_funding") /\ e.res.ok /\ e.tx.a.vamm = v
+     THEN LET vm == GW(aux.gsnaps, S).vamm[v]
+              tv == TwapPrice(vm, S.blk.t, vm.cfg.twapint)
+              to == OracleTwap(S, v, vm.cfg.twapint)
+          IN IF ~calc \/ Bad(tv) \/ Bad(to) THEN aux.gcpf[v] + (Cpf(T, v) - Cpf(S, v))     \* no verdict possible: follow the record
+             ELSE aux.gcpf[v] + SDiv((tv - to) * vm.cfg.period, ONE_DAY)
+     ELSE aux.gcpf[v]]
+GCpfNext(aux, S, e, T) == GCpfNextC(aux, S, e, T, TRUE)
+GF(gcpf, chk, W) ==
+  [W EXCEPT !.eng.vmap = [v \in DOMAIN W.eng.vmap |->
+                            IF v \in DOMAIN gcpf THEN [W.eng.vmap[v] EXCEPT !.cpf = <<gcpf[v]>>] ELSE W.eng.vmap[v]],
+            !.eng.pos = [v \in DOMAIN W.eng.pos |-> [t \in DOMAIN W.eng.pos[v] |->
+                            IF v \in DOMAIN chk /\ t \in DOMAIN chk[v] /\ W.eng.pos[v][t].exists
+                            THEN [W.eng.pos[v][t] EXCEPT !.lupf = chk[v][t]] ELSE W.eng.pos[v][t]]]]
 
 (***************************************************************************)
 (* Ghost state carried along a history.                                    *)
@@ -847,6 +865,7 @@ AuxInit(W) ==
                  LET rs == W.feed.rounds[k] IN SelectSeq(rs, LAMBDA r : r.id >= 1)],
    chk    |-> [v \in Vs(W) |-> [t \in Traders |-> W.eng.pos[v][t].lupf]],
    roles  |-> W.given,
+   gcpf   |-> [v \in Vs(W) |-> Cpf(W, v)],
    gsnaps |-> [v \in Vs(W) |-> W.vamm[v].snaps],
    open0  |-> [v \in Vs(W) |-> [set |-> FALSE, x |-> W.vamm[v].st.x, y |-> W.vamm[v].st.y]]]
 
@@ -861,7 +880,7 @@ UpdNext(upd, S, e, T) ==
      THEN S.blk.h
      ELSE upd[v][t]]]
 
-AuxNext(aux, S, e, T) ==
+AuxNextC(aux, S, e, T, calc) ==
   [y0     |-> aux.y0,
    roles  |-> RolesNext(aux.roles, S, e, T),
    gsnaps |-> GSnapsNext(aux.gsnaps, S, e, T),
@@ -884,10 +903,11 @@ AuxNext(aux, S, e, T) ==
    chk    |-> [v \in Vs(T) |-> [t \in Traders |->
                  IF e.kind = "tx" /\ e.tx.c = "engine" /\ e.res.ok /\ e.tx.s = t
                     /\ e.tx.m \in {"open_position", "close_position", "withdraw_margin"} /\ e.tx.a.vamm = v
-                 THEN (IF T.eng.pos[v][t].exists THEN Cpf(T, v) ELSE 0)
+                 THEN (IF T.eng.pos[v][t].exists THEN GCpfNextC(aux, S, e, T, calc)[v] ELSE 0)
                  ELSE IF EngOp(e, "liquidate") /\ e.res.ok /\ e.tx.a.vamm = v /\ e.tx.a.trader = t /\ ~T.eng.pos[v][t].exists
                  THEN 0
                  ELSE aux.chk[v][t]]],
+   gcpf   |-> GCpfNextC(aux, S, e, T, calc),
    subs   |-> IF Op(e, "feed", "append_price") /\ e.res.ok /\ S.feed.kind = "real" /\ e.tx.a.key \in DOMAIN aux.subs
               THEN [aux.subs EXCEPT ![e.tx.a.key] = Append(@, [id |-> Len(@) + 1, price |-> e.tx.a.price, t |-> e.tx.a.t])]
               ELSE IF Op(e, "feed", "append_multiple_price") /\ e.res.ok /\ S.feed.kind = "real" /\ e.tx.a.key \in DOMAIN aux.subs
@@ -896,4 +916,29 @@ AuxNext(aux, S, e, T) ==
                    IN [aux.subs EXCEPT ![e.tx.a.key] =
                           old \o [i \in 1..n |-> [id |-> Len(old) + i, price |-> e.tx.a.prices[i], t |-> e.tx.a.ts[i]]]]
               ELSE aux.subs]
+AuxNext(aux, S, e, T) == AuxNextC(aux, S, e, T, TRUE)
+\* on a step whose numbers TLC cannot multiply no predicate is judged, but the ghosts still follow the record
+\* (none of the remaining updates needs a product)
+AuxNextUnsafe(aux, S, e, T) == AuxNextC(aux, S, e, T, FALSE)
+
+
+----------------------------------------------------------------------------
+(***************************************************************************)
+(* What the predicates see.  RawIds: the recorded states as they are.        *)
+(* Everything else: the recorded states with the three ghost projections     *)
+(* substituted -- reserve snapshots (GW), cumulative premium fraction and     *)
+(* checkpoints (GF), position direction from the sign of the size (NormW).    *)
+(* C11 keeps the stored fraction / checkpoints of the POST-state (they are    *)
+(* what its clauses judge) and reads the ghost ones in the pre-state.         *)
+(***************************************************************************)
+PreView(aux, S) == NormW(GF(aux.gcpf, aux.chk, GW(aux.gsnaps, S)))
+PostView(id, aux, S, e, T) ==
+  LET a2 == AuxNext(aux, S, e, T)
+  IN IF id = "C11" THEN NormW(GW(a2.gsnaps, T)) ELSE NormW(GF(a2.gcpf, a2.chk, GW(a2.gsnaps, T)))
+Violations(id, S, e, T, aux) ==
+  IF id \in RawIds THEN ViolationsRaw(id, S, e, T, aux)
+  ELSE ViolationsRaw(id, PreView(aux, S), e, PostView(id, aux, S, e, T), aux)
+Antecedents(id, S, e, T, aux) ==
+  IF id \in RawIds THEN AntecedentsRaw(id, S, e, T, aux)
+  ELSE AntecedentsRaw(id, PreView(aux, S), e, PostView(id, aux, S, e, T), aux)
 =============================================================================
